@@ -9,7 +9,11 @@ import (
 	"math"
 	"math/rand"
 	"net"
+	"os"
+	"os/exec"
 	"reflect"
+	"strconv"
+	"strings"
 	"time"
 
 	"github.com/chihaya/chihaya/bittorrent"
@@ -78,6 +82,11 @@ func idsFor(s0, s1 uint64, rng *rand.Rand) ([]byte, []byte) {
 }
 
 func c18Hook(o *Out, kind string, ih, pid []byte, prob float32, maxd int, modmin bool, iIn, mIn int64) {
+	c18HookX(o, kind, ih, pid, prob, maxd, modmin, iIn, mIn, false)
+}
+
+// c18HookX: with other, the "second call" whose interval must equal the first is made by ANOTHER process.
+func c18HookX(o *Out, kind string, ih, pid []byte, prob float32, maxd int, modmin bool, iIn, mIn int64, other bool) {
 	in := map[string]interface{}{"t": "hook", "ih": hx(ih), "pid": hx(pid), "probbits": math.Float32bits(prob),
 		"maxd": maxd, "modmin": modmin, "i_in": fmt.Sprint(iIn), "m_in": fmt.Sprint(mIn)}
 	h, err := varinterval.NewHook(varinterval.Config{ModifyResponseProbability: prob, MaxIncreaseDelta: maxd, ModifyMinInterval: modmin})
@@ -124,6 +133,12 @@ func c18Hook(o *Out, kind string, ih, pid []byte, prob float32, maxd int, modmin
 	req2, resp2 := mk(51413, 12345)
 	_, _ = h.HandleAnnounce(ctx, req2, resp2)
 	iOut2 := int64(resp2.Interval)
+	if other {
+		if v, ok := c18Other(ih, pid, prob, maxd, modmin, iIn, mIn); ok {
+			iOut2 = v
+		}
+		in["other_process"] = true
+	}
 	pm, pe := f32parts(prob)
 	coq := fmt.Sprintf("CHook %s %s %s %s %s %s %s %s %s %s %s %s", cB(ih), cB(pid), cZ(pm), cZ(pe), cZ(int64(maxd)), cBool(modmin),
 		cZ(iIn), cZ(mIn), cZ(iOut), cZ(mOut), cZ(iOut2), cBool(same))
@@ -208,7 +223,7 @@ func c18Replay(o *Out, in map[string]interface{}) error {
 	prob := math.Float32frombits(uint32(jU64(in["probbits"])))
 	switch jStr(in["t"]) {
 	case "hook":
-		c18Hook(o, "replay", unhx(in["ih"]), unhx(in["pid"]), prob, int(jInt(in["maxd"])), jBool(in["modmin"]), jInt(in["i_in"]), jInt(in["m_in"]))
+		c18HookX(o, "replay", unhx(in["ih"]), unhx(in["pid"]), prob, int(jInt(in["maxd"])), jBool(in["modmin"]), jInt(in["i_in"]), jInt(in["m_in"]), jBool(in["other_process"]))
 	case "logic":
 		c18Logic(o, "replay", unhx(in["ih"]), unhx(in["pid"]), prob, int(jInt(in["maxd"])), jBool(in["modmin"]), jInt(in["i_in"]), jInt(in["m_in"]))
 	case "cfg":
@@ -219,7 +234,58 @@ func c18Replay(o *Out, in map[string]interface{}) error {
 	return nil
 }
 
+// c18Other: the interval ANOTHER process hands the same client under the same configuration (a restarted tracker, a second
+// instance behind a load balancer): "d is a deterministic function of infohash and peer ID, so a client sees a stable value".
+func c18Other(ih, pid []byte, prob float32, maxd int, modmin bool, iIn, mIn int64) (int64, bool) {
+	cmd := exec.Command(os.Args[0], "-prop", "C18", "-out", os.TempDir())
+	cmd.Env = append(os.Environ(), fmt.Sprintf("VERIF_C18_CHILD=%s,%s,%d,%d,%v,%d,%d", hx(ih), hx(pid), math.Float32bits(prob), maxd, modmin, iIn, mIn))
+	out, err := cmd.Output()
+	if err != nil {
+		return 0, false
+	}
+	for _, l := range strings.Split(string(out), "\n") {
+		if strings.HasPrefix(l, "C18CHILD ") {
+			v, perr := strconv.ParseInt(strings.TrimSpace(l[9:]), 10, 64)
+			return v, perr == nil
+		}
+	}
+	return 0, false
+}
+
+func c18Child(spec string) {
+	f := strings.Split(spec, ",")
+	if len(f) != 7 {
+		return
+	}
+	pb, _ := strconv.ParseUint(f[2], 10, 32)
+	maxd, _ := strconv.Atoi(f[3])
+	iIn, _ := strconv.ParseInt(f[5], 10, 64)
+	mIn, _ := strconv.ParseInt(f[6], 10, 64)
+	h, err := varinterval.NewHook(varinterval.Config{ModifyResponseProbability: math.Float32frombits(uint32(pb)), MaxIncreaseDelta: maxd, ModifyMinInterval: f[4] == "true"})
+	if err != nil {
+		return
+	}
+	req := &bittorrent.AnnounceRequest{InfoHash: bittorrent.InfoHashFromBytes(unhx(f[0])), NumWant: 7,
+		Peer: bittorrent.Peer{ID: bittorrent.PeerIDFromBytes(unhx(f[1])), Port: 6881, IP: bittorrent.IP{IP: net.IP{10, 0, 0, 1}, AddressFamily: bittorrent.IPv4}}}
+	resp := &bittorrent.AnnounceResponse{Interval: time.Duration(iIn), MinInterval: time.Duration(mIn)}
+	if _, err := h.HandleAnnounce(context.Background(), req, resp); err != nil {
+		return
+	}
+	fmt.Println("C18CHILD", int64(resp.Interval))
+}
+
 func c18Stream(o *Out, rng *rand.Rand, n int) {
+	if spec := os.Getenv("VERIF_C18_CHILD"); spec != "" {
+		c18Child(spec)
+		os.Exit(0)
+	}
+	// a handful of clients asked again in another process
+	for i := 0; i < 6; i++ {
+		ih, pid := make([]byte, 20), make([]byte, 20)
+		rng.Read(ih)
+		rng.Read(pid)
+		c18HookX(o, "other-process", ih, pid, []float32{1, 0.5}[i%2], 1000+i, i%2 == 0, int64(30*time.Minute), int64(15*time.Minute), true)
+	}
 	probs := []float32{1, 0.5, 0.25, 1.0 / (1 << 24), 3.0 / (1 << 24), 1 - 1.0/(1<<24), 0.999, 0.1, 1e-9, math.SmallestNonzeroFloat32,
 		float32(12345) / (1 << 24), math.Nextafter32(float32(12345)/(1<<24), 1), math.Nextafter32(float32(12345)/(1<<24), 0)}
 	deltas := []int{1, 2, 3, 10, 60, 1000, 1 << 24, 1 << 31, 7, 999983}
